@@ -20,7 +20,10 @@
   Clause "order of listing the setup shares": `setup_aggregation_order_indep`.
   Collision contract (fix 98b63bb): `collision_rejected`, `collision_never_ok`,
     `refused_iff_collision`, `accepted_iff_distinct` (one call), `run_refused_iff_collision` (run).
-  History / receiver independence: `share_receiver_independent`, `evalPolyScalar_receiver_independent`
+  History independence: `history_independent`, `sequence_independent` (the model with the Combiner's
+    scratch buffer threaded through a sequence of calls, `copy(prod, cmb.one)` kept as a step; tied by
+    driver op `addshare_seq` on one Combiner serving several groups with a re-used active-list buffer).
+  Receiver independence: `share_receiver_independent`, `evalPolyScalar_receiver_independent`
     (the model with the receiver's previous content explicit, `p2.Copy(p1[last])` kept as a step;
     tied by driver op `share_into` on dirty receivers).
 
@@ -47,6 +50,7 @@
 -/
 import Lattigo.Proofs.ShamirOrder
 import Lattigo.Proofs.ShamirRecv
+import Lattigo.Proofs.ShamirHist
 import Lattigo.Props.C15Gen
 import Lattigo.Props.C15Words
 import Mathlib.Tactic.NormNum.Prime
@@ -530,6 +534,42 @@ example : evalPolyScalarNoCopy [97] 3 [[[5]], [[7]]] [[0]] = [[26]] ∧
     evalPolyScalarNoCopy [97] 3 [[[5]], [[7]]] [[1]] = [[35]] ∧
     evalPolyScalarInto [97] 3 [[[5]], [[7]]] [[1]] = some [[26]] := by decide
 
+/-! ## history independence -/
+
+/-- **history independence of `GenAdditiveShare`**: with the Combiner's scratch buffer made explicit
+(`genAdditiveShareSt`: `prod := cmb.tmp2; copy(prod, cmb.one)`, then the loop), the outcome of a call is
+the same whatever the buffer holds — i.e. whatever calls were made on the Combiner before — and is the
+pure `genAdditiveShare cmb actives ownPoint share`: a function of the Combiner's construction and of
+the call's own arguments only. -/
+theorem history_independent (cmb : Combiner) (hwf : TableWF cmb) (tmp₁ tmp₂ : List ℕ)
+    (h₁ : tmp₁.length = cmb.ring.ms.length) (h₂ : tmp₂.length = cmb.ring.ms.length)
+    (actives : List ℕ) (ownPoint : ℕ) (share : QP) :
+    (genAdditiveShareSt cmb tmp₁ actives ownPoint share).1 = (genAdditiveShareSt cmb tmp₂ actives ownPoint share).1 ∧
+    (genAdditiveShareSt cmb tmp₁ actives ownPoint share).1 = genAdditiveShare cmb actives ownPoint share := by
+  have e1 := (genAdditiveShareSt_spec cmb hwf tmp₁ h₁ actives ownPoint share).1
+  have e2 := (genAdditiveShareSt_spec cmb hwf tmp₂ h₂ actives ownPoint share).1
+  exact ⟨e1.trans e2.symm, e1⟩
+
+/-- **one Combiner serving a sequence of groups**: for a Combiner made by `NewCombiner` and ANY
+sequence of calls (different groups of active parties, orders, own points, shares; refused calls in
+between), the k-th result is the result a freshly built Combiner gives for the k-th call alone. -/
+theorem sequence_independent (r : RingQP) (own : ℕ) (others : List ℕ) (t : Int) (calls : List Call)
+    (tmp2 : List ℕ) (ht : tmp2.length = r.ms.length) :
+    runCalls (newCombiner r own others t) tmp2 calls =
+      calls.map fun c => genAdditiveShare (newCombiner r own others t) c.actives c.ownPoint c.share :=
+  runCalls_eq_map _ (tableWF_newCombiner r own others t) calls tmp2 ht
+
+/-- a sequence of three groups on one combiner (points 4, 9, 11, 15; t = 2), a refused call in between. -/
+example : runCalls (newCombiner ⟨2, [97, 193, 257]⟩ 4 [4, 9, 11, 15] 2) [0, 0, 0]
+      [⟨[9, 4], 4, ⟨2, [[1, 2], [3, 4], [5, 6]]⟩⟩, ⟨[101, 4], 4, ⟨2, [[1, 2], [3, 4], [5, 6]]⟩⟩,
+       ⟨[4, 11], 4, ⟨2, [[1, 2], [3, 4], [5, 6]]⟩⟩, ⟨[15, 4], 4, ⟨2, [[7, 7], [8, 8], [9, 9]]⟩⟩] =
+    [genAdditiveShare (newCombiner ⟨2, [97, 193, 257]⟩ 4 [4, 9, 11, 15] 2) [9, 4] 4 ⟨2, [[1, 2], [3, 4], [5, 6]]⟩,
+     .err,
+     genAdditiveShare (newCombiner ⟨2, [97, 193, 257]⟩ 4 [4, 9, 11, 15] 2) [4, 11] 4 ⟨2, [[1, 2], [3, 4], [5, 6]]⟩,
+     genAdditiveShare (newCombiner ⟨2, [97, 193, 257]⟩ 4 [4, 9, 11, 15] 2) [15, 4] 4 ⟨2, [[7, 7], [8, 8], [9, 9]]⟩] := by
+  rw [sequence_independent _ _ _ _ _ _ (by decide)]
+  decide
+
 /-! ## the excluded points -/
 
 /-- A recipient whose public point is `0` modulo the prime of row `m` (e.g. the point `0`, or the
@@ -685,6 +725,8 @@ end Lattigo.Props.C15
 #print axioms Lattigo.Props.C15.refused_iff_collision
 #print axioms Lattigo.Props.C15.accepted_iff_distinct
 #print axioms Lattigo.Props.C15.setup_aggregation_order_indep
+#print axioms Lattigo.Props.C15.history_independent
+#print axioms Lattigo.Props.C15.sequence_independent
 #print axioms Lattigo.Props.C15.evalPolyScalar_receiver_independent
 #print axioms Lattigo.Props.C15.share_receiver_independent
 #print axioms Lattigo.Props.C15.zero_point_share_is_secret
